@@ -235,7 +235,7 @@ TRUSTED = [
     "CasADi forward AD (ca.jtimes) used to form the ray derivative of Ad(exp(y)); the derivative expression is part of the extracted graph and is replayed numerically",
 ]
 ASSUMPTIONS = [
-    "lemma L-ODE (not machine-checked): Phi' = A Phi, Phi(0) = I has the unique solution expm(tA); used to read `flow` + `init` as Ad_exp = expm(ad)",
+    "lemma L-ODE (machine-checked in Lean 4 / mathlib, lemmas/LinearODE.lean): Phi' = A Phi, Phi(0) = I has the unique solution expm(tA); used to read `flow` + `init` as Ad_exp = expm(ad)",
     "expad.flow is proved on the closed-form cell of every series coefficient (theta^2 >= 1e-3); the Taylor cell of SE(3) Ad(exp) is bounded rigorously in real arithmetic (taylor-cell obligation)",
     "Ad / bracket on direct products raise NotImplementedError and are out of scope by the property's quantifier (asserted to still raise)",
 ]
